@@ -1088,6 +1088,273 @@ class Explorer:
         """Indices of arguments passed as &mut, from the FnDef signature of the call."""
         return [i for i in getattr(self, "_cur_mut_sig", ()) if i < len(args)]
 
+    # ------------------------------------------------ concrete sequences
+    # ('cseq', root, n)                      a slice / Vec whose n elements live at heap[(root, (('ci', i),))]
+    # ('citer', root, n, idx, adaptors, by_ref)  an iterator over it; adaptors = lazy map / filter / enumerate / copied / flat_map
+    def cseq_new(self, st, tag, items):
+        self._cs_n = getattr(self, "_cs_n", 0) + 1
+        root = ("CS", tag, self._cs_n)
+        for i, v in enumerate(items):
+            st.heap[(root, (("ci", i),))] = v
+        return ("cseq", root, len(items))
+
+    def cseq_at(self, st, a):
+        """The cseq / citer value an argument denotes (directly, or through one or two references)."""
+        for _ in range(3):
+            if a[0] in ("cseq", "citer"):
+                return a
+            if a[0] == "ref":
+                a = self.read_loc(st, a[1], a[2])
+                continue
+            return None
+        return None
+
+    def cseq_finish(self, st, stack, dest, target, site, value):
+        fr = stack[-1]
+        self.write_place(st, fr, dest, value, site)
+        return self.after_call(st, fr, target)
+
+    def cseq_branch(self, st, stack, bv, on_true, on_false):
+        """Continue with on_true / on_false according to a (possibly symbolic) boolean; forks when undecided."""
+        r = self.eval_bool(st, bv)
+        if isinstance(r, bool):
+            return (on_true if r else on_false)(st, stack)
+        s2 = st.clone()
+        k2 = self.clone_stack(stack)
+        ok1 = self.assume_bool(st, r, True)
+        ok2 = self.assume_bool(s2, r, False)
+        if ok2:
+            res2 = on_false(s2, k2)
+            if res2 != "stop":
+                self.work.append((s2, k2))
+        if ok1:
+            return on_true(st, stack)
+        self.finish_path(st, None, "diverge")
+        return "stop"
+
+    def cseq_call_closure(self, st, stack, clo_val, argvals, then):
+        """Run a local closure on argvals, then `then(st, stack, result)`."""
+        clo = self.closure_of(st, clo_val)
+        if clo is None or clo[1] not in self.F.fns:
+            return then(st, stack, SYM(self.cap(("call", "<fn>", tuple(argvals)))))
+        callee = self.F.fns[clo[1]]
+
+        def cont(st3, stack3, retv):
+            return then(st3, stack3, retv)
+        self.enter(st, stack, stack[-1], callee, [clo_val] + list(argvals), None, None, cont, closure=True)
+        return "entered"
+
+    def cseq_drive(self, st, stack, it, on_item, on_end):
+        """Feed the remaining elements of a citer, after its lazy adaptors, to on_item(st, stack, value, resume);
+        on_end(st, stack) when exhausted.  Continuation-passing: every callback receives the state it runs in."""
+        _, root, n, idx0, adaptors, by_ref = it
+
+        def step(st1, stack1, idx, count):
+            if idx >= n:
+                return on_end(st1, stack1)
+            v = ("ref", root, (("ci", idx),)) if by_ref else self.read_loc(st1, root, (("ci", idx),))
+            return apply(st1, stack1, 0, v, idx, count)
+
+        def apply(st1, stack1, ai, v, idx, count):
+            if ai == len(adaptors):
+                return on_item(st1, stack1, v, lambda s_, k_: step(s_, k_, idx + 1, count + 1))
+            ad = adaptors[ai]
+            if ad[0] in ("copied", "cloned"):
+                return apply(st1, stack1, ai + 1, self.deref(st1, v), idx, count)
+            if ad[0] == "enumerate":
+                return apply(st1, stack1, ai + 1, ("tup", (C(count, "usize"), v)), idx, count)
+            if ad[0] in ("map", "flat_map"):
+                return self.cseq_call_closure(st1, stack1, ad[1], [v], lambda s_, k_, rv: apply(s_, k_, ai + 1, rv, idx, count))
+            if ad[0] == "filter":
+                self._cs_n = getattr(self, "_cs_n", 0) + 1
+                tmp = ("CS", "tmp", self._cs_n)
+                st1.heap[(tmp, ())] = v
+                return self.cseq_call_closure(
+                    st1, stack1, ad[1], [("ref", tmp, ())],
+                    lambda s_, k_, rv: self.cseq_branch(s_, k_, rv, lambda s2, k2: apply(s2, k2, ai + 1, v, idx, count),
+                                                        lambda s2, k2: step(s2, k2, idx + 1, count)))
+            return on_end(st1, stack1)
+        return step(st, stack, idx0, 0)
+
+    def cseq_model(self, st, stack, fr, info, path, p, args, dest, target, site):
+        if not args:
+            return None
+        nm = path.split("::")[-1]
+        a0 = self.cseq_at(st, args[0])
+        if a0 is None:
+            # Extend::extend(vec, citer) / FromIterator: the concrete thing is the second argument
+            if nm == "extend" and len(args) == 2 and self.cseq_at(st, args[1]) is not None and args[0][0] == "ref":
+                return self.cseq_extend(st, stack, args, dest, target, site)
+            return None
+        OPT = "std::option::Option"
+        fin = lambda s_, k_, v: self.cseq_finish(s_, k_, dest, target, site, v)
+        if a0[0] == "cseq":
+            _, root, n = a0
+            if (nm in ("iter", "iter_mut") and "slice" in path) or (nm == "into_iter" and (path.startswith("<&") or " for &" in path)):
+                return fin(st, stack, ("citer", root, n, 0, (), True))
+            if nm == "into_iter":
+                return fin(st, stack, ("citer", root, n, 0, (), False))
+            if nm == "len":
+                return fin(st, stack, C(n, "usize"))
+            if nm == "is_empty":
+                return fin(st, stack, C(1 if n == 0 else 0, "bool"))
+            if nm in ("deref", "as_slice", "as_ref", "borrow", "as_mut_slice", "deref_mut") and args[0][0] == "ref":
+                return fin(st, stack, args[0])
+            if nm in ("first", "last"):
+                if n == 0:
+                    return fin(st, stack, AGG(OPT, "None"))
+                return fin(st, stack, AGG(OPT, "Some", (("ref", root, (("ci", 0 if nm == "first" else n - 1),)),)))
+            if nm == "get" and len(args) == 2 and args[1][0] == "c":
+                i = args[1][1]
+                return fin(st, stack, AGG(OPT, "Some", (("ref", root, (("ci", i),)),)) if 0 <= i < n else AGG(OPT, "None"))
+            if nm in ("index", "index_mut") and len(args) == 2 and args[1][0] == "c" and 0 <= args[1][1] < n:
+                return fin(st, stack, ("ref", root, (("ci", args[1][1]),)))
+            if nm in ("clone", "to_vec", "to_owned"):
+                return fin(st, stack, a0)
+            return None
+        # ---- citer
+        _, root, n, idx, adaptors, by_ref = a0
+        if nm == "into_iter":
+            return fin(st, stack, a0)
+        if nm in ("map", "filter", "flat_map") and len(args) == 2:
+            return fin(st, stack, ("citer", root, n, idx, adaptors + ((nm, args[1]),), by_ref))
+        if nm in ("copied", "cloned", "enumerate"):
+            return fin(st, stack, ("citer", root, n, idx, adaptors + ((nm,),), by_ref))
+        if nm == "by_ref":
+            return fin(st, stack, args[0])
+        if nm == "take" and len(args) == 2 and args[1][0] == "c" and not adaptors:
+            return fin(st, stack, ("citer", root, min(n, idx + args[1][1]), idx, adaptors, by_ref))
+        if nm == "skip" and len(args) == 2 and args[1][0] == "c" and not adaptors:
+            return fin(st, stack, ("citer", root, n, min(n, idx + args[1][1]), adaptors, by_ref))
+        if nm == "next" and args[0][0] == "ref" and not any(ad[0] in ("filter", "map", "flat_map") for ad in adaptors):
+            if idx >= n:
+                return fin(st, stack, AGG(OPT, "None"))
+            self.write_loc(st, args[0][1], args[0][2], ("citer", root, n, idx + 1, adaptors, by_ref))
+            for kk in [kk for kk in st.visits if kk[0] == fr.depth]:
+                del st.visits[kk]          # progress through a finite list: not a loop-bound round
+            v = ("ref", root, (("ci", idx),)) if by_ref else self.read_loc(st, root, (("ci", idx),))
+            cnt = idx
+            for ad in adaptors:
+                if ad[0] in ("copied", "cloned"):
+                    v = self.deref(st, v)
+                elif ad[0] == "enumerate":
+                    v = ("tup", (C(cnt, "usize"), v))
+            return fin(st, stack, AGG(OPT, "Some", (v,)))
+        if nm == "count":
+            return self.cseq_count(st, stack, a0, fin)
+        if nm in ("all", "any") and len(args) == 2:
+            clo = args[1]
+            want_stop = (nm == "any")        # any: stop with true on the first true; all: stop with false on the first false
+
+            def on_item(s_, k_, v, resume):
+                return self.cseq_call_closure(
+                    s_, k_, clo, [v],
+                    lambda s2, k2, rv: self.cseq_branch(s2, k2, rv,
+                                                        (lambda s3, k3: fin(s3, k3, C(1, "bool"))) if want_stop else resume,
+                                                        resume if want_stop else (lambda s3, k3: fin(s3, k3, C(0, "bool")))))
+            return self.cseq_drive(st, stack, a0, on_item, lambda s_, k_: fin(s_, k_, C(0 if want_stop else 1, "bool")))
+        if nm in ("find", "position") and len(args) == 2:
+            clo = args[1]
+            pos = {"i": idx}
+
+            def on_item_f(s_, k_, v, resume, clo=clo):
+                self._cs_n = getattr(self, "_cs_n", 0) + 1
+                tmp = ("CS", "tmp", self._cs_n)
+                s_.heap[(tmp, ())] = v
+                argv = [("ref", tmp, ())] if nm == "find" else [v]
+                return self.cseq_call_closure(
+                    s_, k_, clo, argv,
+                    lambda s2, k2, rv: self.cseq_branch(s2, k2, rv, lambda s3, k3: fin(s3, k3, AGG(OPT, "Some", (v,))), resume))
+            if nm == "find":
+                return self.cseq_drive(st, stack, a0, on_item_f, lambda s_, k_: fin(s_, k_, AGG(OPT, "None")))
+            return None
+        if nm == "for_each" and len(args) == 2:
+            clo = args[1]
+            return self.cseq_drive(st, stack, a0,
+                                   lambda s_, k_, v, resume: self.cseq_call_closure(s_, k_, clo, [v], lambda s2, k2, rv: resume(s2, k2)),
+                                   lambda s_, k_: fin(s_, k_, UNIT()))
+        if nm == "try_for_each" and len(args) == 2:
+            clo = args[1]
+            RES = "std::result::Result"
+
+            def on_item_t(s_, k_, v, resume):
+                def after(s2, k2, rv):
+                    if rv[0] == "agg" and rv[1] == RES:
+                        return resume(s2, k2) if rv[2] == "Ok" else fin(s2, k2, rv)
+                    if rv[0] == "agg" and rv[1] == OPT:
+                        return resume(s2, k2) if rv[2] == "Some" else fin(s2, k2, rv)
+                    if rv[0] == "sym":
+                        # undecided result of the step: either it fails (returned as it is) or the iteration goes on
+                        s3 = s2.clone()
+                        k3 = self.clone_stack(k2)
+                        dt = ("discr", rv[1], RES)
+                        if self.constrain(s3, dt, "eq", self.variant_discr(RES, "Err")):
+                            r3 = fin(s3, k3, AGG(RES, "Err", (SYM(self.cap(("field", rv[1], 0))),)))
+                            if r3 != "stop":
+                                self.work.append((s3, k3))
+                        if self.constrain(s2, dt, "eq", self.variant_discr(RES, "Ok")):
+                            return resume(s2, k2)
+                        self.finish_path(s2, None, "diverge")
+                        return "stop"
+                    return resume(s2, k2)
+                return self.cseq_call_closure(s_, k_, clo, [v], after)
+            return self.cseq_drive(st, stack, a0, on_item_t, lambda s_, k_: fin(s_, k_, AGG(RES, "Ok", (UNIT(),))))
+        if nm == "sum":
+            box = []
+
+            def on_item_s(s_, k_, v, resume):
+                # accumulate in the state (forks carry their own copy)
+                cur = s_.heap.get((("CS", "acc", id(box)), ()), C(0, "usize"))
+                s_.heap[(("CS", "acc", id(box)), ())] = self.binop(s_, "Add", cur, self.deref(s_, v) if v[0] == "ref" else v)
+                return resume(s_, k_)
+            return self.cseq_drive(st, stack, a0, on_item_s,
+                                   lambda s_, k_: fin(s_, k_, s_.heap.pop((("CS", "acc", id(box)), ()), C(0, "usize"))))
+        if nm == "collect":
+            box = []
+
+            def on_item_c(s_, k_, v, resume):
+                key = (("CS", "col", id(box)), ())
+                s_.heap[key] = s_.heap.get(key, ("tup", ()))
+                s_.heap[key] = ("tup", s_.heap[key][1] + (v,))
+                return resume(s_, k_)
+
+            def on_end_c(s_, k_):
+                items = s_.heap.pop((("CS", "col", id(box)), ()), ("tup", ()))[1]
+                return fin(s_, k_, self.cseq_new(s_, "collect", list(items)))
+            return self.cseq_drive(st, stack, a0, on_item_c, on_end_c)
+        return None
+
+    def cseq_count(self, st, stack, it, fin):
+        box = []
+        key = (("CS", "cnt", id(box)), ())
+
+        def on_item(s_, k_, v, resume):
+            s_.heap[key] = C(s_.heap.get(key, C(0, "usize"))[1] + 1, "usize")
+            return resume(s_, k_)
+        return self.cseq_drive(st, stack, it, on_item, lambda s_, k_: fin(s_, k_, s_.heap.pop(key, C(0, "usize"))))
+
+    def cseq_extend(self, st, stack, args, dest, target, site):
+        """vec.extend(concrete iterator): every produced value is appended; a produced vector / nested serialisation
+        (flat_map) contributes its items."""
+        tgt = args[0]
+        it = self.cseq_at(st, args[1])
+        if it[0] == "cseq":
+            it = ("citer", it[1], it[2], 0, (), False)
+        flat = any(ad[0] == "flat_map" for ad in it[4])
+
+        def on_item(s_, k_, v, resume):
+            cur = self.read_loc(s_, tgt[1], tgt[2])
+            base = cur[1] if cur[0] == "vec" else (("evs?", cur),)
+            if flat:
+                add = v[1] if v[0] == "vec" else (("nested", v),)
+            else:
+                add = (self.deref(s_, v) if v[0] == "ref" else v,)
+            self.write_loc(s_, tgt[1], tgt[2], ("vec", base + tuple(add)))
+            for x in add:
+                s_.effects.append(("push", tgt[1], x, site, tgt[2]))
+            return resume(s_, k_)
+        return self.cseq_drive(st, stack, it, on_item, lambda s_, k_: self.cseq_finish(s_, k_, dest, target, site, UNIT()))
+
     # ------------------------------------------------------------- models
     def model_call(self, st, stack, fr, info, path, args, t, site):
         """Models for std / container / conversion calls. Return None when no model applies."""
@@ -1099,6 +1366,10 @@ class Explorer:
             self.write_place(st, fr, dest, v, site)
             return self.after_call(st, fr, target)
 
+        # ---- concrete sequences (lists whose elements are known one by one): exact iteration, whatever the idiom
+        r_cs = self.cseq_model(st, stack, fr, info, path, p, args, dest, target, site)
+        if r_cs is not None:
+            return r_cs
         # ---- Vec<GenericEvent> words
         if p == "std::vec::Vec::<T>::new" or p == "std::vec::Vec::<T>::with_capacity":
             if tracked_elem(info["targs"][0]):
